@@ -21,7 +21,7 @@ claimed = {
  'C07': "FinishOrder/FinishMMOrder exact settlement from any live order, an already finished order is never settled again, owner can always cancel outside the placement batch, CancelMMOrder cancels and refunds every indexed order for unrelated symbolic app/pair ids, also next to an index entry whose order was already pruned from the store",
  'C04': "one message from an arbitrary pre-state: MsgDeposit / MsgWithdraw queue a request whose recorded coins are exactly what entered the global escrow (pool-coin supply unchanged), Farm / Unfarm move the module account's pool-coin balance by exactly the change of the farmer's recorded (queued + active) amount and never release more than recorded; the end-of-batch maturing step keeps the farmer's total per pool; finishing an order takes only its own escrow. Not covered: execution and refund of requests, pair escrows of orders (C07 covers order settlement), pool disabling, pool creation Two farmers queued in one pool: the maturing step keeps each farmer's own total.",
  'C05': "x/liquidity/amm: one individual fill (FillOrder) from any order state, a buy and a sell filled together (base conserved, quote dust in [0,1]), pro-rata distribution with remainder pass over 2 (quick) / 3 (thorough) orders of one tick on a price grid with symbolic amounts; known finding D21 (sell side can take less than distributed). Not covered: the tick loops of Match / FindMatchableAmountAtSinglePrice, pool order generation, keeper/swap.go application",
- 'C08': "books mode, one message from an arbitrary pre-state: Draw (LTV gate sees collateral, principal + interest + new loan and the pair's LTV / e-mode LTV and must agree; pool holds the coins; published borrowed moves with the principal), partial Repay, partial Withdraw (never beyond AvailableToBorrow), Deposit, Lend (new position), CloseLend; gate lemma on the real valuation arithmetic (decimal grid). Not covered: Borrow, BorrowAlternate, DepositBorrow, CloseBorrow, liquidation hand-over, the sums over all positions (only the per-step identity), interest accrual writes (C18 covers the formulas) BorrowAlternate on a fresh position: the lend half moves books and custody by the lent amount and hands the borrow half the new position.",
+ 'C08': "books mode, one message from an arbitrary pre-state: Draw (LTV gate sees collateral, principal + interest + new loan and the pair's LTV / e-mode LTV and must agree; pool holds the coins; published borrowed moves with the principal), partial Repay, partial Withdraw (never beyond AvailableToBorrow), Deposit, Lend (new position), CloseLend, CloseBorrow (published borrowed total falls by exactly the closed principal); gate lemma on the real valuation arithmetic (decimal grid). Not covered: Borrow, BorrowAlternate, DepositBorrow, CloseBorrow, liquidation hand-over, the sums over all positions (only the per-step identity), interest accrual writes (C18 covers the formulas) BorrowAlternate on a fresh position: the lend half moves books and custody by the lent amount and hands the borrow half the new position.",
  'C09': "safety: one liquidation decision of the second generation for an arbitrary vault / borrow from an arbitrary pre-state (seized only on the unsafe side of the applicable ratio / threshold, ratio taken over collateral vs principal + interest + closing fee, an unsafe vault is seized or the step fails, exactly the recorded collateral moves, one locked vault); liveness: sweep window functions of both generations (valid sub-range, never wider than the batch, progress), the real second-generation vault and borrow sweeps (window visited completely, continues after a failing item, own next offset stored). Not covered: first-generation (x/liquidation) decisions, auction start",
  'C16': "map-iteration-order independence (2-safety by self-composition: insertion order vs reverse order, all orders for two entries) of amm.DistributeOrderAmountToOrders; the other map ranges named in the property and process-level replay are not covered",
  'C10': "second-generation Dutch auction: one bid from an arbitrary running auction (closed world; pays <= target, receives <= collateral, partial-bid bookkeeping, closing bid empties the auction), conversion lemma (posted price + one unit, monotone), price function falling, restart starts a fresh price line; first-generation lend Dutch auction: one bid pays the counted debt coins and receives the collateral sold plus the bonus on exactly that amount (conversions stubbed); first-generation vault Dutch auction: one bid settles exactly (payment <= remaining target, collateral <= held, custody deltas, owner gets the unsold rest when the target is reached, closed exactly when over, collector covers exactly the shortfall after the bid; conversions stubbed)",
@@ -30,7 +30,7 @@ claimed = {
  'C13': "locker books per message, collector net-fee booking for every fee-generating vault message, for the second-generation Dutch close and for the savings paid to lockers on a saving-rate change",
  'C14': "vault and locker messages x circuit breaker / emergency shutdown / cool-off; lend/borrow messages that open, enlarge or draw x circuit breaker; second-generation vault liquidation refuses under shutdown or breaker; first-generation surplus / debt auction activators start nothing under breaker or shutdown. Not covered: lend, second-generation auctions, liquidity",
  'C15': "utils.ApplyFuncIfNoError all-or-nothing with a symbolic fault index; the second-generation vault and borrow sweeps (never panic for any counter / offset / batch size, a failing item neither stops the sweep nor pins it); each sweep item runs on its own cache context; market.BeginBlocker and bandoracle.BeginBlocker never panic; lend / rewards / esm hooks return even when a part of their work panics. Not covered: liquidity, auction, auctionsV2 and liquidation v1 hooks",
- 'C20': "closed-world genesis round trips (real ExportGenesis + InitGenesis into a second empty store) of collector, locker, auctionsV2, liquidationsV2, x/liquidation, x/auction, the external reward programs of rewards and the per-app id counters of liquidity: records carried over, id counters carried over or at least not colliding with an existing id. Not covered: the other modules and the tables DESIGN.md 0.4 lists as not exported, continuation workloads",
+ 'C20': "closed-world genesis round trips (real ExportGenesis + InitGenesis into a second empty store) of collector, locker, auctionsV2, liquidationsV2, x/liquidation, x/auction, vault (vaults, stable-mint vaults, mappings, count, both id counters), the external reward programs of rewards and the per-app id counters of liquidity: records carried over, id counters carried over or at least not colliding with an existing id. Not covered: the other modules and the tables DESIGN.md 0.4 lists as not exported, continuation workloads",
  'C17': "one step of the price ring from any state satisfying the ring invariant, window sizes 1..6 (12 thorough): no panic, invariant, exact mean, activation, consumers fail when inactive",
  'C18': "lend reward / borrow interest / stable interest: non-negative, zero over zero time, monotone relative to a grid (sandwich) in time, principal and rate",
  'C19': "per-epoch split (allocations sum to the deposit, differ by at most one unit, epochs 1..8, 16 thorough); one epoch trigger of an external-reward gauge from any consistent gauge state (asks for exactly this epoch's allocation, only while active / started / epochs left, count and cumulative amount move with what was distributed); one epoch's distribution never reports or pays more than it was given; a master-pool farmer's child-pool value is the sum over his child pools; one daily epoch of an external vault reward program pays at most the undistributed remainder divided by the days left. Not covered: the float share arithmetic, swap-fee gauges, external reward programs, custody of the rewards account across modules",
